@@ -10,6 +10,8 @@ mod c04;
 #[cfg(kani)]
 mod c07;
 #[cfg(kani)]
+mod c08;
+#[cfg(kani)]
 mod c11;
 #[cfg(kani)]
 mod c15;
